@@ -5,6 +5,8 @@ from vlib.catobs import obligations
 
 def build(tier, seed):
     entries = [e for e in select(tier, exclude=("regex_lossy",)) if "P" not in e["tags"] or tier != "quick"]
+    if tier == "quick":
+        entries = [e for e in entries if "G" not in e["tags"]]      # generator shapes are C03's subject
     rel = [e for e in entries if not e["decl"].absolute_positioning()]
     absol = [e for e in entries if e["decl"].absolute_positioning()]
     a = "for accepted inputs: pack() equals raw at every consumed position (relative to the start offset), '.' at skipped " \
